@@ -174,3 +174,31 @@ def none_default(points, mindist=None):
     if mindist is None:
         mindist = 10.0
     return points + mindist
+
+
+def _fill_kernel(values, out):
+    for i in range(values.size):
+        out[i] = values[i] * 2
+    return out
+
+
+def fill_through_ravel_of_like(coordinates):
+    result = np.empty_like(coordinates[0], dtype="float64")
+    _fill_kernel(np.ravel(coordinates[0]), result.ravel())
+    return result
+
+
+def fill_through_ravel_of_empty(coordinates):
+    result = np.empty(np.shape(coordinates[0]), dtype="float64")
+    _fill_kernel(np.ravel(coordinates[0]), result.ravel())
+    return result
+
+
+def cast_to_foreign_dtype(coordinates, forces):
+    return np.array(forces, dtype=coordinates[0].dtype)
+
+
+def cast_to_own_or_promoted_dtype(coordinates, forces):
+    a = np.array(forces, dtype=np.result_type(forces.dtype, np.float32))
+    b = np.asarray(forces, dtype=forces.dtype)
+    return a, b, np.asarray(coordinates[0], dtype="float64")
